@@ -399,6 +399,15 @@ def _membership(v: ast.AST, param: str):
                 return None
             out |= m
         return out
+    if isinstance(v, ast.Call) and dotted(v.func) == "bool" and len(v.args) == 1:
+        return _membership(v.args[0], param)
+    # SymPy assumption queries on the factor itself: exact (magnitude independent) predicates
+    if isinstance(v, ast.Attribute) and dotted(v.value) == param:
+        table = {"is_zero": {"S.Zero"}, "is_infinite": {"S.Infinity", "S.NegativeInfinity"}}
+        if v.attr in table:
+            return set(table[v.attr])
+    if isinstance(v, ast.Compare) and len(v.ops) == 1 and isinstance(v.ops[0], (ast.Is, ast.Eq)) and dotted(v.left) == param and dotted(v.comparators[0]) in ("S.NaN", "nan"):
+        return {"S.NaN"}
     return None
 
 
